@@ -4,8 +4,8 @@ import (
 	config_util "github.com/prometheus/common/config"
 	"io"
 
-	"github.com/sirupsen/logrus"
 	"encoding/json"
+	"github.com/sirupsen/logrus"
 	"os"
 )
 
